@@ -11,15 +11,15 @@ TECHNIQUE = ("Hypothesis-generated directory graphs (adjacency draws over real S
              "the link structure; oracles for build_manifest, start_deep_stats and start_deep_check, run one after the other and overlapping")
 RULE = ("each case: 1-6 (quick) / up to 12 (thorough) real directories and up to 40 links; each link is (parent directory, name, target directory or file, via write cap or read "
         "cap); file targets come from a small pool so that the same file is linked several times. Oracle: the set of verify caps in the manifest equals the set reachable from "
-        "the root (own BFS, root included); every object that has a verify cap appears exactly once in the manifest; literal files and unknown caps (no verify cap) appear "
-        "once per link from a visited directory, as the traversal documents; every manifest path resolves through get_child_at_path to a node with the reported cap; "
+        "the root (own BFS, root included); every object that has a verify cap appears exactly once in the manifest; literal files and literal (immutable, <=55 byte) directories, which have no verify cap, appear exactly once per distinct cap; "
+        "unknown caps appear once per link from a visited directory; every manifest path resolves through get_child_at_path to a node with the reported cap; "
         "deep-stats counters (directories, mutable/immutable/literal files, unknown) equal the model's; deep-check checks each object with a verify cap exactly once; all "
         "three terminate. Non-trivial = the graph has a cycle or an object reachable by two different paths; distinct by whole case.")
 LEVEL_TEXT = "Random graphs against an independent breadth-first reference."
 ASSUMPTIONS = ["file caps are synthetic (never uploaded): deep-check reports them unhealthy, which is not asserted", "honest servers"]
-REQUIRED_CLASSES = ["overlapping-deep-operations", "cycle", "self-link", "shared-subdir", "rw-and-ro-link-to-same-object", "literal", "unknown", "deep-check"]
+REQUIRED_CLASSES = ["literal-linked-twice", "literal-directory-shared", "overlapping-deep-operations", "cycle", "self-link", "shared-subdir", "rw-and-ro-link-to-same-object", "literal", "unknown", "deep-check"]
 BUDGET = {"quick": 900, "thorough": 7200}
-FILEKINDS = ["lit", "lit", "chk", "chk", "ssk", "ssk-ro", "mdmf", "unknown"]
+FILEKINDS = ["lit", "lit", "chk", "chk", "ssk", "ssk-ro", "mdmf", "unknown", "immdir-empty", "immdir-small", "lit", "immdir-small"]
 
 
 def plan(tier):
@@ -35,7 +35,7 @@ def cases(draw, maxdirs):
     for d in range(1, nd):
         if draw(st.integers(0, 5)) > 0:
             links.append([draw(st.integers(0, d - 1)), "d", d, draw(st.sampled_from(["rw", "rw", "ro"]))])
-    extra = draw(st.lists(st.tuples(st.integers(0, nd - 1), st.sampled_from(["d", "f", "f"]), st.integers(0, 7), st.sampled_from(["rw", "ro"])).map(list), max_size=3 * nd + 4))
+    extra = draw(st.lists(st.tuples(st.integers(0, nd - 1), st.sampled_from(["d", "f", "f"]), st.integers(0, 11), st.sampled_from(["rw", "ro"])).map(list), max_size=3 * nd + 4))
     for e in extra:
         if e[1] == "d":
             e[2] = e[2] % nd
@@ -64,10 +64,23 @@ def run_case(case, ctx):
                 return
             dirs.append(r[1])
 
+        immdirs = {}
+
         def filecap(i, mode):
             kind = FILEKINDS[i % len(FILEKINDS)]
             if kind == "unknown":
                 return "unknown", None, b"ro.URI:FUTURE-RO:%d" % i
+            if kind.startswith("immdir"):
+                # an immutable directory small enough to be a literal itself (URI:DIR2-LIT:): empty, or holding one literal file
+                if i not in immdirs:
+                    kids = {}
+                    if kind == "immdir-small":
+                        kids = {u"k": (c.nodemaker.create_from_cap(uri.LiteralFileURI(b"in-%d" % i).to_string()), {})}
+                    r_ = g.run(c.nodemaker.create_immutable_directory(kids))
+                    assert r_[0] == "ok", r_
+                    immdirs[i] = r_[1].get_uri()
+                    assert immdirs[i].startswith(b"URI:DIR2-LIT:"), immdirs[i]
+                return kind, None, immdirs[i]
             cap = caps.make({"kind": {"lit": "LIT", "chk": "CHK", "ssk": "SSK", "ssk-ro": "SSK-RO", "mdmf": "MDMF"}[kind], "a": 500 + i * 9, "b": 700 + i * 9, "k": 1, "n": 2,
                              "size": 1000 + i, "lit": (b"literal-%d" % i).hex()})
             if kind in ("ssk", "mdmf") and mode == "rw":
@@ -91,6 +104,7 @@ def run_case(case, ctx):
         reach_dirs, order = {0}, [0]
         objs = set()            # ("d", idx) / ("f", kind, target) for objects with a verify cap
         lit_links = unknown_links = 0
+        lit_objs = set()        # objects without a verify cap, identified by their cap: literal files, literal directories and the literal files inside those
         paths_to = {}
         qi = 0
         multi = False
@@ -109,7 +123,19 @@ def run_case(case, ctx):
                     kind = ent[1]
                     if kind == "lit":
                         lit_links += 1
+                        if ("lit", ent[2]) in lit_objs:
+                            multi = True
+                            classes.add("literal-linked-twice")
+                        lit_objs.add(("lit", ent[2]))
                         classes.add("literal")
+                    elif kind.startswith("immdir"):
+                        if ("immdir", ent[2]) in lit_objs:
+                            multi = True
+                            classes.add("literal-directory-shared")
+                        lit_objs.add(("immdir", ent[2]))
+                        if kind == "immdir-small":
+                            lit_objs.add(("immlit", ent[2]))
+                        classes.add("literal-directory")
                     elif kind == "unknown":
                         unknown_links += 1
                         classes.add("unknown")
@@ -125,7 +151,9 @@ def run_case(case, ctx):
                 modes.setdefault(key, set()).add(ent[-1])
         if any(len(v) > 1 for v in modes.values()):
             classes.add("rw-and-ro-link-to-same-object")
-        exp = {"count-directories": len(reach_dirs), "count-literal-files": lit_links, "count-unknown": unknown_links,
+        n_immdir = len([o for o in lit_objs if o[0] == "immdir"])
+        n_litfiles = len([o for o in lit_objs if o[0] in ("lit", "immlit")])
+        exp = {"count-directories": len(reach_dirs) + n_immdir, "count-literal-files": n_litfiles, "count-unknown": unknown_links,
                "count-mutable-files": len([o for o in objs if o[1] in ("ssk", "mdmf")]), "count-immutable-files": len([o for o in objs if o[1] == "chk"])}
         exp_vcaps = set(dirs[d].get_verify_cap().to_string() for d in reach_dirs)
         for (f, kind, i) in objs:
@@ -142,7 +170,7 @@ def run_case(case, ctx):
         man = res["manifest"]
         got_v = set(res["verifycaps"])
         ctx.check(got_v == exp_vcaps, "wrong-reachable-set", "%s: manifest verify caps: %d missing, %d extra (expected %d objects)" % (desc, len(exp_vcaps - got_v), len(got_v - exp_vcaps), len(exp_vcaps)))
-        seen_v = {}
+        seen_v, seen_lit = {}, {}
         n_lit = n_unknown = 0
         for (path, cap) in man:
             try:
@@ -154,6 +182,9 @@ def run_case(case, ctx):
                 n_unknown += 1
             elif v is None:
                 n_lit += 1
+                if cap in seen_lit:
+                    ctx.fail("visited-twice", "%s: the manifest lists the same literal object twice: at %r and at %r (%r)" % (desc, seen_lit[cap], path, cap[:40]), literal=True)
+                seen_lit[cap] = path
             else:
                 vs = v.to_string()
                 if vs in seen_v:
@@ -164,7 +195,8 @@ def run_case(case, ctx):
                 rr = g.run(root.get_child_at_path(list(path)))
                 ctx.check(rr[0] == "ok" and (rr[1].get_uri() == cap or (isinstance(rr[1], UnknownNode))), "path-mismatch", "%s: manifest path %r does not lead to the reported cap" % (desc, path))
         ctx.check(set(seen_v) == exp_vcaps, "manifest-objects", "%s: objects listed once in the manifest: %d, expected %d" % (desc, len(seen_v), len(exp_vcaps)))
-        ctx.check(n_lit == lit_links and n_unknown == unknown_links, "per-link-entries", "%s: manifest has %d literal and %d unknown entries; links from visited directories: %d literal, %d unknown" % (desc, n_lit, n_unknown, lit_links, unknown_links))
+        ctx.check(len(seen_lit) == len(lit_objs), "manifest-objects", "%s: literal objects (files and directories) listed in the manifest: %d, reachable: %d" % (desc, len(seen_lit), len(lit_objs)), literal=True)
+        ctx.check(n_unknown == unknown_links, "per-link-entries", "%s: manifest has %d unknown entries; links from visited directories: %d unknown" % (desc, n_unknown, unknown_links))
         # ---- deep stats
         r = g.run(root.start_deep_stats().when_done())
         if r[0] != "ok":
